@@ -296,6 +296,8 @@ def k_bytes(base, chk):
 
 def run(chk):
     prog, base = setup(chk)
+    from .common import state_shape
+    state_shape(chk, prog)
     from .common import api_surface, SCALAR_API
     api_surface(chk, prog, 'Scalar', SCALAR_API, 'C08 (encodings) or C07 (arithmetic)')
     chk.bounds = ["all 2^256 (SetCanonicalBytes, SetBytesWithClamping) and 2^512 (SetUniformBytes) byte strings; every other length via one symbolic length", "all scalars in [0,l) for Bytes"]
@@ -315,6 +317,11 @@ def run(chk):
         ("len SetUniformBytes", lambda: K.k_len_reject(base, chk, prog.find("Scalar).SetUniformBytes"), 64, ST, "Scalar.SetUniformBytes")),
         ("len SetBytesWithClamping", lambda: K.k_len_reject(base, chk, prog.find("Scalar).SetBytesWithClamping"), 32, ST, "Scalar.SetBytesWithClamping")),
     ]
+    # "maps every string to ..." is a statement about every call in every history: the setters and Bytes must keep no
+    # package-level state (effects as in C19); hidden memo state leaves the check undecided and starts the history battery
+    from .c19 import analyse as effects_of
+    for meth in ("SetCanonicalBytes", "SetUniformBytes", "SetBytesWithClamping", "Bytes"):
+        items.append(("effects " + meth, lambda meth=meth: effects_of(base, chk, prog.find("Scalar)." + meth))))
     run_kernels(chk, items)
     from sym import validate
     validate.scalar_kernels(base, chk, 150 if chk.tier == "thorough" else 10)
@@ -345,5 +352,6 @@ def bytes_battery(chk):
 
 
 def safety_net(chk):
-    return bytes_battery(chk) or (setter_replay(chk, "SetCanonicalBytes", 32, lambda b: int.from_bytes(b, "little"), lambda b: int.from_bytes(b, "little") < L)
+    from sym import ptreplay
+    return ptreplay.battery_decode_history(chk.seed) or bytes_battery(chk) or (setter_replay(chk, "SetCanonicalBytes", 32, lambda b: int.from_bytes(b, "little"), lambda b: int.from_bytes(b, "little") < L)
             or setter_replay(chk, "SetUniformBytes", 64, lambda b: int.from_bytes(b, "little")) or setter_replay(chk, "SetBytesWithClamping", 32, clamp_py))
